@@ -457,6 +457,22 @@ theorem Dummy.callEnv_eq (E : EnvSem σ α ω ρ) (d : Dummy σ ω) (i : Nat) (c
           | rfl
           | (simp only [Dummy.ws]; exact zipWith_set_left _ _ _ _ _ _ hr)
           | simp [hlen]
+      | isWrapped cls =>
+        simp only [Worker.react]
+        refine ⟨?_, ?_, ?_, ?_, ?_, ?_⟩
+        all_goals first
+          | trivial
+          | rfl
+          | exact hlen
+          | exact (set_self _ i _ hws).symm
+      | close =>
+        simp only [Worker.react]
+        refine ⟨?_, ?_, ?_, ?_, ?_, ?_⟩
+        all_goals first
+          | trivial
+          | rfl
+          | (simp only [Dummy.ws]; exact zipWith_set_left _ _ _ _ _ _ hr)
+          | simp [hlen]
 
 theorem Dummy.callEnv_none (E : EnvSem σ α ω ρ) (d : Dummy σ ω) (i : Nat) (c : Cmd α ω)
     (hlen : d.envs.length = d.resetInfos.length) (hw : (Dummy.ws d)[i]? = none) :
@@ -507,6 +523,8 @@ theorem react_resetInfo (E : EnvSem σ α ω ρ) (w : W σ ω) (c : Cmd α ω) (
   | getAttr _ => cases h
   | setAttr _ _ => cases h
   | envMethod _ _ => cases h
+  | isWrapped _ => cases h
+  | close => cases h
 
 theorem zipWith_react_resetInfo (E : EnvSem σ α ω ρ) (ws : List (W σ ω)) (acts : List α) :
     (List.zipWith (fun w a => (Worker.react E w (Cmd.step a)).2) ws acts).filterMap Reply.resetInfo? =
@@ -642,6 +660,11 @@ theorem plan_valid (n : Nat) (seeds : List (Option Int)) (options : List Opts) (
     simp only [plan, List.mem_map] at hx
     obtain ⟨i, hi, rfl⟩ := hx
     exact hv i hi
+  | isWrapped cls idx =>
+    intro x hx
+    simp only [plan, List.mem_map] at hx
+    obtain ⟨i, hi, rfl⟩ := hx
+    exact hv i hi
 
 theorem plan_reset_resetting (n : Nat) (seeds : List (Option Int)) (options : List Opts) :
     ∀ c ∈ ((List.range n).map fun i => (Cmd.reset (seeds.getD i none) (options.getD i []) : Cmd α ω)),
@@ -669,6 +692,8 @@ theorem Dummy.callEnv_resetInfos (E : EnvSem σ α ω ρ) (d : Dummy σ ω) (i :
     | getAttr _ => rfl
     | setAttr _ _ => rfl
     | envMethod _ _ => rfl
+    | isWrapped _ => rfl
+    | close => rfl
 
 theorem Dummy.loop_resetInfos (E : EnvSem σ α ω ρ) (pl : List (Nat × Cmd α ω)) (d : Dummy σ ω)
     (h : ∀ x ∈ pl, ¬ x.2.resetting) : (Dummy.loop E d pl).1.resetInfos = d.resetInfos := by
@@ -678,6 +703,69 @@ theorem Dummy.loop_resetInfos (E : EnvSem σ α ω ρ) (pl : List (Nat × Cmd α
     obtain ⟨i, c⟩ := x
     simp only [Dummy.loop]
     rw [ih _ (fun y hy => h y (by simp [hy])), Dummy.callEnv_resetInfos E d i c (h (i, c) (by simp))]
+
+/-- bookkeeping after the receive loop: if the pipes are drained onto Dummy's post-loop state and the replies are
+Dummy's, the return values agree and the objects are in step again -/
+theorem post_equiv (E : EnvSem σ α ω ρ) (s : Sys σ α ω ρ) (d : Dummy σ ω) (op : Op α ω)
+    (procs : List (Proc σ α ω ρ)) (replies : List (Reply ω ρ))
+    (hn : s.procs.length = d.envs.length) (hri : s.resetInfos = d.resetInfos) (hseeds : s.seeds = d.seeds)
+    (hoptions : s.options = d.options) (hlen : d.envs.length = d.resetInfos.length)
+    (hv : op.valid d.envs.length)
+    (hviews : procs.map (view E) =
+      quiet (Dummy.ws (Dummy.loop E d (plan d.envs.length d.seeds d.options op)).1))
+    (hrep : replies = (Dummy.loop E d (plan d.envs.length d.seeds d.options op)).2) :
+    assemble op d.envs.length replies (Sys.post s procs replies op).resetInfos = (Dummy.runOpRaw E d op).2 ∧
+    Rel E (Sys.post s procs replies op) (Dummy.runOpRaw E d op).1 := by
+  have hwl : (Dummy.ws d).length = d.envs.length := by simp [Dummy.ws, hlen]
+  obtain ⟨l1, l2, l3, l4, l5, l6⟩ := Dummy.loop_eq E (plan d.envs.length d.seeds d.options op) d hlen
+  have hgather : ∀ cs : List (Cmd α ω), cs.length = d.envs.length → (∀ c ∈ cs, c.resetting) →
+      plan d.envs.length d.seeds d.options op = indexedFrom 0 cs →
+      replies.filterMap Reply.resetInfo? =
+        (Dummy.loop E d (plan d.envs.length d.seeds d.options op)).1.resetInfos := by
+    intro cs hcl hcr hp
+    rw [hrep, l1, hp, seqCalls_indexed0 E cs (Dummy.ws d) (by rw [hcl, hwl]) hcr, ← hp, ← l2]
+    exact Dummy.ws_resetInfos _ l3
+  have hquiet : ∀ idx : List Nat, ∀ c : Cmd α ω, ¬ c.resetting →
+      plan d.envs.length d.seeds d.options op = idx.map (fun i => (i, c)) →
+      (Dummy.loop E d (plan d.envs.length d.seeds d.options op)).1.resetInfos = d.resetInfos := by
+    intro idx c hc hp
+    apply Dummy.loop_resetInfos
+    intro y hy
+    rw [hp] at hy
+    simp only [List.mem_map] at hy
+    obtain ⟨i, _, rfl⟩ := hy
+    exact hc
+  cases op with
+  | seed sd =>
+    simp only [Dummy.runOpRaw, Sys.post, Dummy.post, plan, Dummy.loop] at *
+    exact ⟨by rw [hrep, hri], ⟨hviews, hri, by rw [hn], hoptions, hlen⟩⟩
+  | setOptions o =>
+    simp only [Dummy.runOpRaw, Sys.post, Dummy.post, plan, Dummy.loop] at *
+    exact ⟨by rw [hrep, hri], ⟨hviews, hri, hseeds, by rw [hn], hlen⟩⟩
+  | reset =>
+    have hg := hgather _ (by simp) (plan_reset_resetting _ _ _) rfl
+    simp only [Dummy.runOpRaw, Sys.post, Dummy.post] at *
+    exact ⟨by rw [hg, hrep], ⟨hviews, hg, by rw [hn, l4], by rw [hn, l4], l3⟩⟩
+  | step acts =>
+    have hg := hgather _ (by simp only [List.length_map]; exact hv) (plan_step_resetting _) rfl
+    simp only [Dummy.runOpRaw, Sys.post, Dummy.post] at *
+    exact ⟨by rw [hg, hrep], ⟨hviews, hg, by rw [hseeds, l5], by rw [hoptions, l6], l3⟩⟩
+  | getAttr name idx =>
+    have hq := hquiet _ (Cmd.getAttr name) (fun h => h) rfl
+    simp only [Dummy.runOpRaw, Sys.post, Dummy.post] at *
+    exact ⟨by rw [hrep, hri, hq], ⟨hviews, by rw [hri, hq], by rw [hseeds, l5], by rw [hoptions, l6], l3⟩⟩
+  | setAttr name v idx =>
+    have hq := hquiet _ (Cmd.setAttr name v) (fun h => h) rfl
+    simp only [Dummy.runOpRaw, Sys.post, Dummy.post] at *
+    exact ⟨by rw [hrep, hri, hq], ⟨hviews, by rw [hri, hq], by rw [hseeds, l5], by rw [hoptions, l6], l3⟩⟩
+  | envMethod name args idx =>
+    have hq := hquiet _ (Cmd.envMethod name args) (fun h => h) rfl
+    simp only [Dummy.runOpRaw, Sys.post, Dummy.post] at *
+    exact ⟨by rw [hrep, hri, hq], ⟨hviews, by rw [hri, hq], by rw [hseeds, l5], by rw [hoptions, l6], l3⟩⟩
+  | isWrapped cls idx =>
+    have hq := hquiet _ (Cmd.isWrapped cls) (fun h => h) rfl
+    simp only [Dummy.runOpRaw, Sys.post, Dummy.post] at *
+    exact ⟨by rw [hrep, hri, hq], ⟨hviews, by rw [hri, hq], by rw [hseeds, l5], by rw [hoptions, l6], l3⟩⟩
 
 /-- **One public operation, any schedule**: from states in step, `SubprocVecEnv` never dead-locks, returns exactly
 what `DummyVecEnv` returns, and the states are in step again. -/
@@ -692,7 +780,7 @@ theorem runOp_equiv (E : EnvSem σ α ω ρ) (s : Sys σ α ω ρ) (d : Dummy σ
   have hA := arun_program E _ (Dummy.ws d) hpl
   have hR := runProg_refines E s.procs sch (program (plan d.envs.length d.seeds d.options op))
   rw [R.views, hA] at hR
-  obtain ⟨l1, l2, l3, l4, l5, l6⟩ := Dummy.loop_eq E (plan d.envs.length d.seeds d.options op) d R.len
+  obtain ⟨l1, l2, _, _, _, _⟩ := Dummy.loop_eq E (plan d.envs.length d.seeds d.options op) d R.len
   cases hx : runProg E s.procs sch (program (plan d.envs.length d.seeds d.options op)) with
   | none => rw [hx] at hR; simp at hR
   | some x =>
@@ -701,52 +789,11 @@ theorem runOp_equiv (E : EnvSem σ α ω ρ) (s : Sys σ α ω ρ) (d : Dummy σ
     obtain ⟨hviews, hrep⟩ := hR
     rw [← l2] at hviews
     rw [← l1] at hrep
-    -- reset_infos gathered from the replies (step / reset) = Dummy's list
-    have hgather : ∀ cs : List (Cmd α ω), cs.length = d.envs.length → (∀ c ∈ cs, c.resetting) →
-        plan d.envs.length d.seeds d.options op = indexedFrom 0 cs →
-        x.2.2.filterMap Reply.resetInfo? =
-          (Dummy.loop E d (plan d.envs.length d.seeds d.options op)).1.resetInfos := by
-      intro cs hcl hcr hp
-      rw [hrep, l1, hp, seqCalls_indexed0 E cs (Dummy.ws d) (by rw [hcl, hwl]) hcr, ← hp, ← l2]
-      exact Dummy.ws_resetInfos _ l3
-    have hOutRel :
-        assemble op s.procs.length x.2.2 (Sys.post s x.1 x.2.2 op).resetInfos = (Dummy.runOpRaw E d op).2 ∧
-        Rel E (Sys.post s x.1 x.2.2 op) (Dummy.runOpRaw E d op).1 := by
-      cases op with
-      | seed sd =>
-        simp only [Dummy.runOpRaw, Sys.post, Dummy.post, plan, Dummy.loop] at *
-        exact ⟨by rw [hn, hrep, R.ri], ⟨hviews, R.ri, by rw [hn], R.options, R.len⟩⟩
-      | setOptions o =>
-        simp only [Dummy.runOpRaw, Sys.post, Dummy.post, plan, Dummy.loop] at *
-        exact ⟨by rw [hn, hrep, R.ri], ⟨hviews, R.ri, R.seeds, by rw [hn], R.len⟩⟩
-      | reset =>
-        have hg := hgather _ (by simp) (plan_reset_resetting _ _ _) rfl
-        simp only [Dummy.runOpRaw, Sys.post, Dummy.post] at *
-        exact ⟨by rw [hn, hg, hrep], ⟨hviews, hg, by rw [hn, l4], by rw [hn, l4], l3⟩⟩
-      | step acts =>
-        have hg := hgather _ (by simp only [List.length_map]; exact hv) (plan_step_resetting _) rfl
-        simp only [Dummy.runOpRaw, Sys.post, Dummy.post] at *
-        exact ⟨by rw [hn, hg, hrep], ⟨hviews, hg, by rw [R.seeds, l5], by rw [R.options, l6], l3⟩⟩
-      | getAttr name idx =>
-        have hq := Dummy.loop_resetInfos E (plan d.envs.length d.seeds d.options (Op.getAttr name idx)) d
-          (by intro y hy; simp only [plan, List.mem_map] at hy; obtain ⟨i, _, rfl⟩ := hy; exact fun h => h)
-        simp only [Dummy.runOpRaw, Sys.post, Dummy.post] at *
-        exact ⟨by rw [hn, hrep, R.ri, hq], ⟨hviews, by rw [R.ri, hq], by rw [R.seeds, l5], by rw [R.options, l6], l3⟩⟩
-      | setAttr name v idx =>
-        have hq := Dummy.loop_resetInfos E (plan d.envs.length d.seeds d.options (Op.setAttr name v idx)) d
-          (by intro y hy; simp only [plan, List.mem_map] at hy; obtain ⟨i, _, rfl⟩ := hy; exact fun h => h)
-        simp only [Dummy.runOpRaw, Sys.post, Dummy.post] at *
-        exact ⟨by rw [hn, hrep, R.ri, hq], ⟨hviews, by rw [R.ri, hq], by rw [R.seeds, l5], by rw [R.options, l6], l3⟩⟩
-      | envMethod name args idx =>
-        have hq := Dummy.loop_resetInfos E (plan d.envs.length d.seeds d.options (Op.envMethod name args idx)) d
-          (by intro y hy; simp only [plan, List.mem_map] at hy; obtain ⟨i, _, rfl⟩ := hy; exact fun h => h)
-        simp only [Dummy.runOpRaw, Sys.post, Dummy.post] at *
-        exact ⟨by rw [hn, hrep, R.ri, hq], ⟨hviews, by rw [R.ri, hq], by rw [R.seeds, l5], by rw [R.options, l6], l3⟩⟩
+    obtain ⟨h1, h2⟩ := post_equiv E s d op x.1 x.2.2 hn R.ri R.seeds R.options R.len hv hviews hrep
     unfold Sys.runOp
     rw [hn, R.seeds, R.options, hx]
     simp only []
-    rw [hn] at hOutRel
-    exact ⟨_, _, by rw [hOutRel.1], hOutRel.2⟩
+    exact ⟨_, _, by rw [h1], h2⟩
 
 theorem Dummy.runOpRaw_length (E : EnvSem σ α ω ρ) (d : Dummy σ ω) (op : Op α ω)
     (hlen : d.envs.length = d.resetInfos.length) : (Dummy.runOpRaw E d op).1.envs.length = d.envs.length := by
@@ -826,6 +873,8 @@ theorem Dummy.callEnv_untouched (E : EnvSem σ α ω ρ) (d : Dummy σ ω) (i j 
     | getAttr _ => exact ⟨rfl, rfl⟩
     | setAttr _ _ => simp [List.getElem?_set_ne h]
     | envMethod _ _ => simp [List.getElem?_set_ne h]
+    | isWrapped _ => exact ⟨rfl, rfl⟩
+    | close => simp [List.getElem?_set_ne h]
 
 theorem Dummy.loop_untouched (E : EnvSem σ α ω ρ) (pl : List (Nat × Cmd α ω)) (d : Dummy σ ω) (j : Nat)
     (h : ∀ x ∈ pl, x.1 ≠ j) :
@@ -854,5 +903,324 @@ theorem Dummy.loop_getAttr (E : EnvSem σ α ω ρ) (name : String) (idxs : List
     obtain ⟨h1, h2⟩ := ih (fun j hj => h j (by simp [hj]))
     simp only [List.map_cons, Dummy.loop, hc]
     exact ⟨h1, by simp [Reply.val?, h2, he]⟩
+
+/-! ### `step_async` / `step_wait` / `close`: phases of the object -/
+
+theorem arunProg_sends_nil (E : EnvSem σ α ω ρ) (aps : List (AProc σ ω ρ)) (pl : List (Nat × Cmd α ω)) :
+    arunProg E aps (sendsOf pl) = some (asends E aps pl, []) := by
+  have := arunProg_sends E aps pl []
+  simp only [List.append_nil, arunProg] at this
+  exact this
+
+theorem arunProg_append (E : EnvSem σ α ω ρ) (aps : List (AProc σ ω ρ)) (A B : List (PAct α ω)) :
+    arunProg E aps (A ++ B) =
+      (arunProg E aps A).bind fun x => (arunProg E x.1 B).map fun y => (y.1, x.2 ++ y.2) := by
+  induction A generalizing aps with
+  | nil =>
+    simp only [List.nil_append, arunProg, Option.bind_some]
+    cases arunProg E aps B <;> rfl
+  | cons a rest ih =>
+    cases a with
+    | send i c => simp only [List.cons_append, arunProg]; exact ih _
+    | recv i =>
+      simp only [List.cons_append, arunProg]
+      cases arecv aps i with
+      | none => rfl
+      | some x =>
+        simp only []
+        rw [ih]
+        cases arunProg E x.1 rest with
+        | none => rfl
+        | some y =>
+          simp only [Option.bind_some]
+          cases arunProg E y.1 B <;> rfl
+
+theorem asends_length (E : EnvSem σ α ω ρ) (aps : List (AProc σ ω ρ)) (pl : List (Nat × Cmd α ω)) :
+    (asends E aps pl).length = aps.length := by
+  induction pl generalizing aps with
+  | nil => rfl
+  | cons x rest ih => obtain ⟨i, c⟩ := x; simp only [asends]; rw [ih]; exact upd_length _ _ _
+
+theorem indexedFrom_fst {β : Type} (k : Nat) (cs : List β) :
+    (indexedFrom k cs).map (fun x => x.1) = List.range' k cs.length := by
+  induction cs generalizing k with
+  | nil => rfl
+  | cons c cs ih => simp [indexedFrom, ih, List.range'_succ]
+
+theorem recvAll_eq (acts : List α) :
+    (recvAll acts.length : List (PAct α ω)) = (stepPlan acts : List (Nat × Cmd α ω)).map (fun x => PAct.recv x.1) := by
+  unfold recvAll stepPlan
+  have h := indexedFrom_fst 0 (acts.map (Cmd.step : α → Cmd α ω))
+  rw [List.length_map] at h
+  rw [List.range_eq_range', ← h, List.map_map]
+  rfl
+
+theorem closePlan_valid (n : Nat) : ∀ x ∈ (closePlan n : List (Nat × Cmd α ω)), x.1 < n := by
+  intro x hx
+  simp only [closePlan, List.mem_map, List.mem_range] at hx
+  obtain ⟨i, hi, rfl⟩ := hx
+  exact hi
+
+theorem closePlan_quiet (n : Nat) : ∀ x ∈ (closePlan n : List (Nat × Cmd α ω)), ¬ x.2.resetting := by
+  intro x hx
+  simp only [closePlan, List.mem_map] at hx
+  obtain ⟨i, _, rfl⟩ := hx
+  exact fun h => h
+
+theorem stepPlan_valid (acts : List α) : ∀ x ∈ (stepPlan acts : List (Nat × Cmd α ω)), x.1 < acts.length := by
+  intro x hx
+  have := indexedFrom_lt 0 _ x hx
+  simpa using this
+
+/-- while a step is outstanding every worker owes exactly one reply -/
+theorem asends_indexed (E : EnvSem σ α ω ρ) (cs : List (Cmd α ω)) (pre : List (AProc σ ω ρ)) (mid : List (W σ ω))
+    (hlen : cs.length = mid.length) :
+    asends E (pre ++ quiet mid) (indexedFrom pre.length cs) =
+      pre ++ List.zipWith (fun w c => ((Worker.react E w c).1, [(Worker.react E w c).2])) mid cs := by
+  induction cs generalizing pre mid with
+  | nil =>
+    cases mid with
+    | nil => simp [indexedFrom, asends, quiet]
+    | cons m ms => simp at hlen
+  | cons c cs ih =>
+    cases mid with
+    | nil => simp at hlen
+    | cons m ms =>
+      simp only [List.length_cons, Nat.add_right_cancel_iff] at hlen
+      have hget : (pre ++ quiet (m :: ms) : List (AProc σ ω ρ))[pre.length]? = some (m, []) := by simp [quiet]
+      have hset : (pre ++ quiet (m :: ms) : List (AProc σ ω ρ)).set pre.length
+            ((Worker.react E m c).1, [(Worker.react E m c).2]) =
+          (pre ++ [((Worker.react E m c).1, [(Worker.react E m c).2])]) ++ quiet ms := by simp [quiet]
+      have hidx : pre.length + 1 = (pre ++ [((Worker.react E m c).1, [(Worker.react E m c).2])]).length := by simp
+      simp only [indexedFrom, asends]
+      unfold asend
+      rw [upd_some _ _ _ _ hget]
+      simp only [asendP, List.nil_append]
+      rw [hset, hidx, ih _ ms hlen]
+      simp
+
+theorem waiting_pending_one (E : EnvSem σ α ω ρ) (ws : List (W σ ω)) (acts : List α) (h : acts.length = ws.length) :
+    ∀ a ∈ asends E (quiet ws) (stepPlan acts : List (Nat × Cmd α ω)), a.2.length = 1 := by
+  have := asends_indexed E (acts.map (Cmd.step : α → Cmd α ω)) [] ws (by simp [h])
+  simp only [List.length_nil, List.nil_append] at this
+  unfold stepPlan
+  rw [this]
+  clear this h
+  intro a ha
+  generalize acts.map (Cmd.step : α → Cmd α ω) = cs at ha
+  induction ws generalizing cs with
+  | nil => simp at ha
+  | cons w ws ih =>
+    cases cs with
+    | nil => simp at ha
+    | cons c cs =>
+      simp only [List.zipWith_cons_cons, List.mem_cons] at ha
+      rcases ha with rfl | ha
+      · rfl
+      · exact ih cs ha
+
+theorem pending_length (E : EnvSem σ α ω ρ) (p : Proc σ α ω ρ) :
+    (view E p).2.length = p.inbox.length + p.outbox.length := by
+  simp [view, runCmds_length]; omega
+
+/-- The objects are in step, by phase. `n` = number of sub-environments. -/
+def XRel (E : EnvSem σ α ω ρ) (n : Nat) : Phase → Sub σ α ω ρ → Dum σ α ω → Prop
+  | .idle, x, y => Rel E x.sys y.d ∧ x.waiting = false ∧ x.closed = false ∧ y.d.envs.length = n
+  | .waiting, x, y =>
+    x.waiting = true ∧ x.closed = false ∧ y.d.envs.length = n ∧ y.actions.length = n ∧
+    x.sys.procs.map (view E) = asends E (quiet (Dummy.ws y.d)) (stepPlan y.actions) ∧
+    x.sys.resetInfos = y.d.resetInfos ∧ x.sys.seeds = y.d.seeds ∧ x.sys.options = y.d.options ∧
+    y.d.envs.length = y.d.resetInfos.length
+  | .closed, x, y =>
+    x.closed = true ∧ x.sys.resetInfos = y.d.resetInfos ∧ ∃ ws, x.sys.procs.map (view E) = quiet ws
+
+theorem XRel.init (E : EnvSem σ α ω ρ) (envs : List σ) :
+    XRel E envs.length .idle (Sub.init envs : Sub σ α ω ρ) (Dum.init envs) :=
+  ⟨Rel.init E envs, rfl, rfl, rfl⟩
+
+theorem castRews_empty (cast : ρ → ρ) (ri : List (Info ω)) :
+    Out.castRews cast ({ resetInfos := ri } : Out ω ρ) = { resetInfos := ri } := rfl
+
+/-- **One call, any schedule, any phase.** -/
+theorem run_equiv (E : EnvSem σ α ω ρ) (cast : ρ → ρ) (n : Nat) (p p' : Phase) (x : Sub σ α ω ρ) (y : Dum σ α ω)
+    (sch : Sched) (c : Call α ω) (R : XRel E n p x y) (hc : Call.next n p c = some p') :
+    ∃ x' sch' out, Sub.run E x sch c = some (x', sch', out) ∧
+      (Dum.run E cast y c).2 = out.castRews cast ∧ XRel E n p' x' (Dum.run E cast y c).1 := by
+  cases p with
+  | idle =>
+    obtain ⟨R0, hw, hcl, hn⟩ := R
+    have hwl : (Dummy.ws y.d).length = n := by simp [Dummy.ws, R0.len, ← hn]
+    cases c with
+    | op o =>
+      simp only [Call.next] at hc
+      split at hc
+      · next hv =>
+        cases hc
+        rw [← hn] at hv
+        obtain ⟨s', sch', h1, R1⟩ := runOp_equiv E x.sys y.d sch o R0 hv
+        refine ⟨{ x with sys := s' }, sch', _, by simp only [Sub.run, h1], rfl, ?_⟩
+        exact ⟨R1, hw, hcl, by rw [← hn]; exact Dummy.runOpRaw_length E y.d o R0.len⟩
+      · cases hc
+    | stepAsync acts =>
+      simp only [Call.next] at hc
+      split at hc
+      · next hv =>
+        cases hc
+        have hR := runProg_refines E x.sys.procs sch (sendsOf (stepPlan acts))
+        rw [R0.views, arunProg_sends_nil] at hR
+        cases hx : runProg E x.sys.procs sch (sendsOf (stepPlan acts)) with
+        | none => rw [hx] at hR; simp at hR
+        | some r =>
+          rw [hx] at hR
+          simp only [Option.map_some, Option.some.injEq, Prod.mk.injEq] at hR
+          refine ⟨_, _, _, by simp only [Sub.run, hx] <;> rfl, ?_, ?_⟩
+          · simp only [Dum.run, castRews_empty, R0.ri]
+          · exact ⟨rfl, hcl, hn, hv, hR.1, R0.ri, R0.seeds, R0.options, R0.len⟩
+      · cases hc
+    | stepWait => simp [Call.next] at hc
+    | close =>
+      simp only [Call.next, Option.some.injEq] at hc
+      subst hc
+      have hpn : x.sys.procs.length = n := by rw [R0.n, hn]
+      have hA := arun_program E (closePlan n) (Dummy.ws y.d) (by rw [hwl]; exact closePlan_valid n)
+      have hR := runProg_refines E x.sys.procs sch ([] ++ program (closePlan n))
+      rw [List.nil_append, R0.views, hA] at hR
+      obtain ⟨l1, l2, l3, l4, l5, l6⟩ := Dummy.loop_eq E (closePlan n) y.d R0.len
+      cases hx : runProg E x.sys.procs sch ([] ++ program (closePlan n)) with
+      | none => rw [List.nil_append] at hx; rw [hx] at hR; simp at hR
+      | some r =>
+        rw [List.nil_append] at hx
+        rw [hx] at hR
+        simp only [Option.map_some, Option.some.injEq, Prod.mk.injEq] at hR
+        have hq := Dummy.loop_resetInfos E (closePlan n) y.d (closePlan_quiet n)
+        refine ⟨{ x with sys := { x.sys with procs := r.1 }, closed := true }, r.2.1,
+          { resetInfos := x.sys.resetInfos }, ?_, ?_, ?_⟩
+        · simp only [Sub.run, hcl, hw, hpn, Bool.false_eq_true, if_false, List.nil_append, hx] <;> rfl
+        · simp only [Dum.run, castRews_empty, hn, hq, R0.ri]
+        · exact ⟨rfl, by simp only [Dum.run, hn, hq]; exact R0.ri, ⟨_, hR.1⟩⟩
+  | waiting =>
+    obtain ⟨hw, hcl, hn, han, hviews, hri, hseeds, hoptions, hlen⟩ := R
+    have hwl : (Dummy.ws y.d).length = n := by simp [Dummy.ws, hlen, ← hn]
+    have hpn : x.sys.procs.length = n := by
+      have := congrArg List.length hviews
+      rw [List.length_map, asends_length] at this
+      simp only [quiet, List.length_map] at this
+      rw [this, hwl]
+    have hstep : arunProg E (asends E (quiet (Dummy.ws y.d)) (stepPlan y.actions))
+        ((stepPlan y.actions : List (Nat × Cmd α ω)).map (fun z => PAct.recv z.1)) =
+        some (quiet (seqCalls E (Dummy.ws y.d) (stepPlan y.actions)).1,
+          (seqCalls E (Dummy.ws y.d) (stepPlan y.actions)).2) := by
+      rw [← arunProg_sends]
+      exact arun_program E (stepPlan y.actions) (Dummy.ws y.d) (by rw [hwl, ← han]; exact stepPlan_valid _)
+    cases c with
+    | op o => simp [Call.next] at hc
+    | stepAsync acts => simp [Call.next] at hc
+    | stepWait =>
+      simp only [Call.next, Option.some.injEq] at hc
+      subst hc
+      have hR := runProg_refines E x.sys.procs sch (recvAll x.sys.procs.length)
+      rw [hpn, ← han, recvAll_eq, hviews, hstep] at hR
+      obtain ⟨l1, l2, _, _, _, _⟩ := Dummy.loop_eq E (stepPlan y.actions) y.d hlen
+      cases hx : runProg E x.sys.procs sch (recvAll x.sys.procs.length) with
+      | none =>
+        rw [hpn, ← han, recvAll_eq] at hx
+        rw [hx] at hR; simp at hR
+      | some r =>
+        have hx' := hx
+        rw [hpn, ← han, recvAll_eq] at hx'
+        rw [hx'] at hR
+        simp only [Option.map_some, Option.some.injEq, Prod.mk.injEq] at hR
+        obtain ⟨hv1, hv2⟩ := hR
+        rw [← l2] at hv1
+        rw [← l1] at hv2
+        have hvalid : (Op.step y.actions : Op α ω).valid y.d.envs.length := by
+          simp only [Op.valid]; rw [han, hn]
+        obtain ⟨h1, h2⟩ := post_equiv E x.sys y.d (Op.step y.actions) r.1 r.2.2 (by rw [hpn, hn]) hri hseeds hoptions
+          hlen hvalid hv1 hv2
+        refine ⟨_, _, _, by simp only [Sub.run, hx] <;> rfl, ?_, ?_⟩
+        · simp only [Dum.run, Dummy.runOp]
+          rw [← h1, hpn, hn]
+          rfl
+        · exact ⟨h2, rfl, hcl, by
+            simp only [Dum.run, Dummy.runOp]
+            rw [Dummy.runOpRaw_length E y.d _ hlen]; exact hn⟩
+    | close =>
+      simp only [Call.next, Option.some.injEq] at hc
+      subst hc
+      have hsl : (seqCalls E (Dummy.ws y.d) (stepPlan y.actions : List (Nat × Cmd α ω))).1.length = n := by
+        rw [seqCalls_length, hwl]
+      have hA2 := arun_program E (closePlan n) (seqCalls E (Dummy.ws y.d) (stepPlan y.actions)).1
+        (by rw [hsl]; exact closePlan_valid n)
+      have hR := runProg_refines E x.sys.procs sch (recvAll n ++ program (closePlan n))
+      rw [hviews, arunProg_append] at hR
+      have hrecv : (recvAll n : List (PAct α ω)) =
+          (stepPlan y.actions : List (Nat × Cmd α ω)).map (fun z => PAct.recv z.1) := by
+        rw [← han]; exact recvAll_eq y.actions
+      rw [hrecv, hstep] at hR
+      simp only [Option.bind_some, hA2, Option.map_some] at hR
+      rw [← hrecv] at hR
+      cases hx : runProg E x.sys.procs sch (recvAll n ++ program (closePlan n)) with
+      | none => rw [hx] at hR; simp at hR
+      | some r =>
+        rw [hx] at hR
+        simp only [Option.map_some, Option.some.injEq, Prod.mk.injEq] at hR
+        have hq := Dummy.loop_resetInfos E (closePlan n) y.d (closePlan_quiet n)
+        refine ⟨{ x with sys := { x.sys with procs := r.1 }, closed := true }, r.2.1,
+          { resetInfos := x.sys.resetInfos }, ?_, ?_, ?_⟩
+        · simp only [Sub.run, hcl, hw, hpn, Bool.false_eq_true, if_false, if_true, hx] <;> rfl
+        · simp only [Dum.run, castRews_empty, hn, hq, hri]
+        · exact ⟨rfl, by simp only [Dum.run, hn, hq]; exact hri, ⟨_, hR.1⟩⟩
+  | closed =>
+    obtain ⟨hcl, hri, ws, hws⟩ := R
+    cases c with
+    | op o => simp [Call.next] at hc
+    | stepAsync acts => simp [Call.next] at hc
+    | stepWait => simp [Call.next] at hc
+    | close =>
+      simp only [Call.next, Option.some.injEq] at hc
+      subst hc
+      have hq := Dummy.loop_resetInfos E (closePlan y.d.envs.length) y.d (closePlan_quiet _)
+      refine ⟨x, sch, { resetInfos := x.sys.resetInfos }, by simp only [Sub.run, hcl, if_true], ?_, ?_⟩
+      · simp only [Dum.run, castRews_empty, hq, hri]
+      · exact ⟨hcl, by simp only [Dum.run, hq]; exact hri, ⟨ws, hws⟩⟩
+
+/-- **Whole histories of calls, any schedule.** -/
+theorem runAll_equiv (E : EnvSem σ α ω ρ) (cast : ρ → ρ) (n : Nat) (cs : List (Call α ω)) (p p' : Phase)
+    (x : Sub σ α ω ρ) (y : Dum σ α ω) (sch : Sched) (R : XRel E n p x y) (h : phaseAfter n p cs = some p') :
+    ∃ x' sch' outs, Sub.runAll E x sch cs = some (x', sch', outs) ∧
+      (Dum.runAll E cast y cs).2 = outs.map (Out.castRews cast) ∧ XRel E n p' x' (Dum.runAll E cast y cs).1 := by
+  induction cs generalizing p x y sch with
+  | nil =>
+    simp only [phaseAfter, Option.some.injEq] at h
+    subst h
+    exact ⟨x, sch, [], rfl, rfl, R⟩
+  | cons c rest ih =>
+    simp only [phaseAfter] at h
+    cases hc : Call.next n p c with
+    | none => rw [hc] at h; cases h
+    | some p1 =>
+      rw [hc] at h
+      obtain ⟨x1, sch1, out, h1, h2, R1⟩ := run_equiv E cast n p p1 x y sch c R hc
+      obtain ⟨x2, sch2, outs, g1, g2, R2⟩ := ih p1 x1 (Dum.run E cast y c).1 sch1 R1 h
+      refine ⟨x2, sch2, out :: outs, ?_, ?_, ?_⟩
+      · simp only [Sub.runAll, h1, g1]
+      · simp only [Dum.runAll, List.map_cons, h2, g2]
+      · simpa only [Dum.runAll] using R2
+
+theorem views_quiet_drained (E : EnvSem σ α ω ρ) (ps : List (Proc σ α ω ρ)) (ws : List (W σ ω))
+    (hv : ps.map (view E) = quiet ws) : ∀ p ∈ ps, p.inbox = [] ∧ p.outbox = [] := by
+  induction ps generalizing ws with
+  | nil => intro p hp; cases hp
+  | cons p ps ih =>
+    cases ws with
+    | nil => simp [quiet] at hv
+    | cons w ws =>
+      simp only [quiet, List.map_cons, List.cons.injEq] at hv
+      obtain ⟨h1, h2, _⟩ := view_quiet E p w hv.1
+      intro q hq
+      simp only [List.mem_cons] at hq
+      rcases hq with rfl | hq
+      · exact ⟨h1, h2⟩
+      · exact ih ws hv.2 q hq
 
 end SB3Verif.Subproc
